@@ -9,11 +9,11 @@ theorem closed_ChainIndexerSyncedHeight : ∃ body m, prog Fn.ChainIndexerSynced
   ⟨f_ChainIndexerSyncedHeight, checkFuel, rfl, by decide +kernel⟩
 
 set_option maxHeartbeats 100000000 in
-theorem closed_CreateStakingTransaction : ∃ body m, prog Fn.CreateStakingTransaction = some body ∧ (check prog exports imports closed m [] body).isSome = true :=
+theorem closed_CreateStakingTransaction : ∃ body m, prog Fn.CreateStakingTransaction_wallet = some body ∧ (check prog exports imports closed m [] body).isSome = true :=
   ⟨f_CreateStakingTransaction, checkFuel, rfl, by decide +kernel⟩
 
 set_option maxHeartbeats 100000000 in
-theorem closed_GetUtxo : ∃ body m, prog Fn.GetUtxo = some body ∧ (check prog exports imports closed m [] body).isSome = true :=
+theorem closed_GetUtxo : ∃ body m, prog Fn.GetUtxo_wallet = some body ∧ (check prog exports imports closed m [] body).isSome = true :=
   ⟨f_GetUtxo, checkFuel, rfl, by decide +kernel⟩
 
 set_option maxHeartbeats 100000000 in
@@ -49,13 +49,13 @@ theorem closed_onRelevantBlockConnected : ∃ body m, prog Fn.onRelevantBlockCon
   ⟨f_onRelevantBlockConnected, checkFuel, rfl, by decide +kernel⟩
 
 set_option maxHeartbeats 100000000 in
-theorem safe_CreateStakingTransaction_api : safe prog exports imports closed checkFuel (.invoke Fn.CreateStakingTransaction_api) = true := by decide +kernel
+theorem safe_CreateStakingTransaction_api : safe prog exports imports closed checkFuel (.invoke Fn.CreateStakingTransaction_tx_service) = true := by decide +kernel
 
 set_option maxHeartbeats 100000000 in
-theorem safe_CreateWallet_api : safe prog exports imports closed checkFuel (.invoke Fn.CreateWallet_api) = true := by decide +kernel
+theorem safe_CreateWallet_api : safe prog exports imports closed checkFuel (.invoke Fn.CreateWallet_wallet_service) = true := by decide +kernel
 
 set_option maxHeartbeats 100000000 in
-theorem safe_ExportWallet_api : safe prog exports imports closed checkFuel (.invoke Fn.ExportWallet_api) = true := by decide +kernel
+theorem safe_ExportWallet_api : safe prog exports imports closed checkFuel (.invoke Fn.ExportWallet_wallet_service) = true := by decide +kernel
 
 set_option maxHeartbeats 100000000 in
 theorem safe_GetAddressBalance : safe prog exports imports closed checkFuel (.invoke Fn.GetAddressBalance) = true := by decide +kernel
